@@ -2,8 +2,14 @@
 from pipes import duration
 
 
+import os
+
+
 def run(tier, rep):
-    duration.pipeline(tier, rep)
+    selftest = os.environ.get("VERIF_SELFTEST") == "1"     # mutation self-test: etl side only
+    duration.pipeline(tier, rep, calibrate=not selftest)
+    if selftest:
+        rep.notes.append("VERIF_SELFTEST=1: calibration skipped")
     # deviations outside the literal property statement (implicit floating-point conversion to a duration that is
     # not the common type) are recorded as notes, not as violations of C12
     notes = [d for d in rep.devs if d["kind"].startswith("note-")]
